@@ -3,7 +3,8 @@
 From ClapModel Require Import Base.Bytes Base.Machine Base.Utf8 Lex.OsStrExtModel.
 From ClapModel Require Import Parse.Cmd Parse.Build Parse.Valid Parse.Matcher Parse.Errors Parse.Validator Parse.Parser.
 From ClapModel Require Import ParseProofs.Totality ParseProofs.Actions ParseProofs.Sources ParseProofs.Unparse ParseProofs.UnparseProofs ParseProofs.UnparseTop
-                              ParseProofs.UnparseSub ParseProofs.UnparseTrail ParseProofs.UnparseTree ParseProofs.KindSound ParseProofs.SourcesLine.
+                              ParseProofs.UnparseSub ParseProofs.UnparseTrail ParseProofs.UnparseTree ParseProofs.KindSound ParseProofs.SourcesLine
+                              ParseProofs.SourcesDefaults.
 From Coq Require Import ZArith List Bool.
 From RecordUpdate Require Import RecordSet.
 Import RecordSetNotations.
@@ -125,4 +126,28 @@ Module SrcEx.
     split; [left; reflexivity|].
     left. exists [97;97], true, (Some [86]). split; [vm_compute; reflexivity|]. left. vm_compute. reflexivity.
   Qed.
+
+  (** non-interference of default values: the same definition with other plain defaults
+      ([kk]: "Z" instead of "k", [aa]: none, [nn]: "N", [bb]: "w" instead of "y"), the same line *)
+  Definition f2 (x : arg) : list bytes :=
+    if beq (a_id x) [107] then [[90]] else if beq (a_id x) [97] then [] else if beq (a_id x) [110] then [[78]]
+    else if beq (a_id x) [98] then [[119]] else a_default x.
+  Definition t2 : cmd :=
+    (cmd_new [112]) <| c_args := [a <| a_default := [] |>; b <| a_default := [[119]] |>; m; f; g; h;
+                                  k <| a_default := [[90]] |>; n <| a_default := [[78]] |>; e] |> <| c_subs := [run] |>.
+  Example ex_ni_hyps :
+    is_set s_no_binary_name t2 = false /\ valid (with_bin t2 tbin) = true /\
+    build_self (with_bin t2 tbin) = with_defaults f2 cb /\ wf_inv (with_defaults f2 cb) tinv = true /\
+    no_globals (build_recursive (S (S (depth (build_self (with_bin t2 tbin))))) (with_bin t2 tbin)) = true.
+  Proof.
+    split; [reflexivity|]. split; [vm_compute; reflexivity|]. split; [vm_compute; reflexivity|].
+    split; vm_compute; reflexivity.
+  Qed.
+  Example ex_ni_parse : exists ms2,
+    parse_top t2 (tbin :: render_inv tinv) = OOk ms2 /\
+    summary ms2 = [([109], Some SCmdLine, [[[77]]]); ([102], Some SCmdLine, [[s_true]]);
+                   ([97], Some SEnv, [[[69;49]]]); ([101], Some SEnv, [[[69;50]; [51]]]);
+                   ([98], Some SDefault, [[[120]]]); ([103], Some SDefault, [[s_false]]);
+                   ([104], Some SDefault, [[s_false]]); ([107], Some SDefault, [[[90]]]); ([110], Some SDefault, [[[78]]])].
+  Proof. eexists. split; [vm_compute; reflexivity|]. reflexivity. Qed.
 End SrcEx.
